@@ -172,13 +172,13 @@ example : trivialLb S5 K3 = 1 ∧ findLb exactMul exactMul S5 K3 = 2 := by decid
 example : trivialLb P3 T5 = 1 ∧ findLb exactMul exactMul P3 T5 = 2 ∧
     confirmRow 2 (largestBoundedCurvature exactMul T5 3 2).1 P3 3 = true := by decide
 
-/-! ### the unrepaired sort-key product (regression witness) -/
+/-! ### the unrepaired code (regression witnesses; repaired in /repo by a42e80a) -/
 
 /-- path on 14 vertices -/
 def P14 : Mat := (List.range 14).map fun i => (List.range 14).map fun j => (i - j) + (j - i)
 
 omit [NeZero n] [NeZero m] in
-/-- **the old code**: `len(K) * diam_X` was `Python int * np.int8`.  Under NumPy 2 it is an
+/-- **the old sort-key product**: `len(K) * diam_X` was `Python int * np.int8`.  Under NumPy 2 it is an
     `OverflowError` for 128 or more rows (no bounds are returned at all for graphs with ≥ 128 vertices
     and diameter ≤ 127), and below that it wraps modulo 256: on the 14-vertex path (`14·13 = 182 ↦ −74`)
     the wrapped keys keep 4 rows at `d = 2` where the exact keys keep 7 — still a principal submatrix
@@ -188,6 +188,21 @@ theorem old_key_product_counterexample :
       (largestBoundedCurvatureIdx (wrapMul 8) P14 13 2).length = 4 ∧
       (largestBoundedCurvatureIdx (wrapMul 64) P14 13 2).length = 7 := by
   decide
+
+/-- the distribution (over values `100, …, 1`) of the one-entry vector `(100)` -/
+def oneAt100 : List ℕ := 1 :: List.replicate 99 0
+
+omit [NeZero n] [NeZero m] in
+/-- **the old feasibility test was incomplete, hence the old lower bound unsound**: with `d` an int8
+    scalar, `i + (d − 1) = 99 + 39` wrapped to `−118`, the window was empty and the vector `(100)` was
+    declared *not* assignable to itself within `< 40` — although the identity is such an assignment.
+    (On isomorphic 100-vertex paths the old code returned lower bounds > 0.)  The repaired test
+    answers `true`, and `greedy_complete` shows it can never err in this direction. -/
+theorem old_feasibility_counterexample :
+    checkAssignmentFeasibilityOld oneAt100 oneAt100 40 = false ∧
+      checkAssignmentFeasibility oneAt100 oneAt100 40 = true ∧ AssignableList [100] [100] 40 := by
+  refine ⟨by decide, by decide, ⟨id, fun _ _ h => h, fun k => ?_⟩⟩
+  simp [Nat.dist_self]
 
 /-! ### upper bound -/
 
